@@ -99,3 +99,120 @@ pub fn decode_ast_case(data: &[u8]) -> Option<c01::Case> {
     })();
     r.ok()
 }
+
+// --- algebra target (C07 C08 C09 C10 C11 C13 C15) ------------------------------------------------
+
+use crate::gen::ranges::{and, interval_text_of, minus, sugar_text_of, tags, vpool_of, Expr};
+use serde::{Deserialize, Serialize};
+
+#[derive(Clone, Debug, Serialize, Deserialize)]
+pub struct AlgCase {
+    pub a: Expr,
+    pub b: Expr,
+    pub c: Expr,
+    pub extra: Vec<MVersion>,
+}
+
+fn alg_comp(u: &mut Unstructured) -> arbitrary::Result<u64> {
+    let cap = max_int() - 2;
+    Ok(match u.int_in_range(0..=11u8)? {
+        0..=8 => u.int_in_range(0..=2u64)?,
+        9 => *u.choose(&[9u64, 10, 99, 255, 256, 65535, 65536, 4294967295, 4294967296])?,
+        10 => cap - u.int_in_range(0..=2u64)?,
+        _ => u.int_in_range(0..=cap)?,
+    })
+}
+
+fn alg_leaf(u: &mut Unstructured, pool: &[MVersion]) -> arbitrary::Result<Expr> {
+    if u.ratio(1, 25)? {
+        return Ok(Expr::Any);
+    }
+    let n = pool.len();
+    let nalts = if u.ratio(3, 5)? { 1 } else { u.int_in_range(2..=3usize)? };
+    let mut alts = vec![];
+    for _ in 0..nalts {
+        let (i, j) = (u.int_in_range(0..=n - 1)?, u.int_in_range(0..=n - 1)?);
+        if u.ratio(5, 6)? {
+            alts.push(interval_text_of(pool, i, j, u.int_in_range(0..=11u8)?, u.arbitrary()?, u.arbitrary()?));
+        } else {
+            alts.push(sugar_text_of(pool, i, j, u.int_in_range(0..=11u8)?));
+        }
+    }
+    Ok(Expr::Leaf(alts.join(" || ")))
+}
+
+fn alg_expr(u: &mut Unstructured, pool: &[MVersion], depth: u32) -> arbitrary::Result<Expr> {
+    if depth == 0 || u.ratio(2, 5)? {
+        return alg_leaf(u, pool);
+    }
+    let l = alg_expr(u, pool, depth - 1)?;
+    let r = alg_expr(u, pool, depth - 1)?;
+    Ok(if u.arbitrary()? { and(l, r) } else { minus(l, r) })
+}
+
+/// bytes -> three expression trees (depth <= 2) over one shared version pool + extra probes
+pub fn decode_alg_case(data: &[u8]) -> Option<AlgCase> {
+    let mut u = Unstructured::new(data);
+    let r: arbitrary::Result<AlgCase> = (|| {
+        let (a, b, c, d) = (alg_comp(&mut u)?, alg_comp(&mut u)?, alg_comp(&mut u)?, u.int_in_range(0..=3u64)?);
+        let np = u.int_in_range(3..=8usize)?;
+        let mut picks = vec![];
+        for _ in 0..np {
+            picks.push((u.int_in_range(0..=4usize)?, u.int_in_range(0..=4usize)?));
+        }
+        let pool = vpool_of(a, b, c, d, &picks);
+        let ea = alg_expr(&mut u, &pool, 2)?;
+        let eb = alg_expr(&mut u, &pool, 2)?;
+        let ec = alg_expr(&mut u, &pool, 1)?;
+        let tg = tags();
+        let mut extra = vec![];
+        for _ in 0..u.int_in_range(0..=3usize)? {
+            let base = u.choose(&pool)?.clone();
+            extra.push(MVersion::new(base.major, base.minor, base.patch + u.int_in_range(0..=1u64)?).with_pre(u.choose(&tg)?.clone()));
+        }
+        Ok(AlgCase { a: ea, b: eb, c: ec, extra })
+    })();
+    r.ok()
+}
+
+pub const ALG_PROPS: &[&str] = &["C07", "C08", "C09", "C10", "C11", "C13", "C15"];
+
+/// the relations of the algebra properties on one decoded case; `only` restricts to one property.
+/// Returns (property, replayable case, result) for every relation that ran.
+pub fn check_alg(cs: &AlgCase, only: Option<&str>, st: &mut crate::engine::Stats) -> Vec<(&'static str, serde_json::Value, Result<(), crate::engine::Failure>)> {
+    use crate::props::*;
+    let want = |p: &str| only.map_or(true, |o| o == p);
+    let mut out = vec![];
+    let pair = c07::PairCase { a: cs.a.clone(), b: cs.b.clone(), extra: cs.extra.clone() };
+    let pj = serde_json::to_value(&pair).unwrap();
+    if want("C07") {
+        out.push(("C07", pj.clone(), c07::check_pair(&pair, st)));
+    }
+    if want("C08") {
+        out.push(("C08", pj.clone(), c08::check_pair(&pair, st)));
+    }
+    if want("C09") {
+        out.push(("C09", pj.clone(), c09::check_pair(&pair, st)));
+    }
+    if want("C10") {
+        out.push(("C10", pj.clone(), c10::check_pair(&pair, st)));
+    }
+    let exprs = [cs.a.clone(), and(cs.a.clone(), cs.b.clone()), minus(cs.a.clone(), cs.b.clone()), minus(cs.c.clone(), and(cs.a.clone(), cs.b.clone()))];
+    if want("C11") {
+        for e in &exprs {
+            let c = c11::Case::Expr(e.clone());
+            out.push(("C11", serde_json::to_value(&c).unwrap(), c11::check_case(&c, st)));
+        }
+    }
+    if want("C13") {
+        for e in &exprs {
+            let c = c13::Case::Expr(e.clone());
+            out.push(("C13", serde_json::to_value(&c).unwrap(), c13::check_case(&c, st)));
+        }
+    }
+    if want("C15") {
+        let c = c15::Case { a: cs.a.clone(), b: cs.b.clone(), c: cs.c.clone(), extra: cs.extra.clone() };
+        out.push(("C15", serde_json::to_value(&c).unwrap(), c15::check_case(&c, st)));
+    }
+    out
+}
